@@ -293,6 +293,10 @@ func pushesOf(argv []string, served bool) ([]string, []int) {
 	switch upper(argv[0]) {
 	case "LPUSH", "RPUSH":
 		return []string{argv[1]}, []int{len(argv) - 2}
+	case "LPUSHX", "RPUSHX":
+		if served {
+			return []string{argv[1]}, []int{len(argv) - 2}
+		}
 	case "LMOVE", "RPOPLPUSH", "BLMOVE", "BRPOPLPUSH":
 		if served {
 			return []string{argv[2]}, []int{1}
@@ -424,12 +428,43 @@ func (s *sched) atomic(conn *kit.Conn, se *model.Session, argv []string) error {
 	if err := exp.Match(got); err != nil {
 		return fmt.Errorf("%v: %v", argv, err)
 	}
-	served := !(exp.Kind == model.EVal && exp.V.K == kit.KNil) && !exp.IsErr()
+	served := !(exp.Kind == model.EVal && exp.V.K == kit.KNil) && !exp.IsErr() && !(exp.Kind == model.EVal && exp.V.K == kit.KInt && exp.V.I == 0)
 	pk, pn := pushesOf(argv, served)
 	if exp.IsErr() {
 		pk, pn = nil, nil
 	}
 	return s.drainWakes(fmt.Sprintf("%v", argv), pk, pn)
+}
+
+// atomicTx runs one push as MULTI / push / EXEC: the wake-ups it owes are due when EXEC has replied.
+func (s *sched) atomicTx(conn *kit.Conn, se *model.Session, argv []string) error {
+	n := nowMs()
+	if s.srv.WouldBeAny(s.sess, se, argv, model.Time{Lo: n, Hi: n}) {
+		s.st.Class("dont-care-skipped")
+		return nil
+	}
+	var exp model.Exp
+	var got kit.Value
+	for _, a := range [][]string{{"MULTI"}, argv, {"EXEC"}} {
+		t0 := nowMs()
+		v, err := conn.Do(a...)
+		t1 := nowMs()
+		if err != nil {
+			return fmt.Errorf("%v: %v", a, err)
+		}
+		exp = s.srv.Exec(s.sess, se, a, model.Time{Lo: t0, Hi: t1})
+		if err := exp.Match(v); err != nil {
+			return fmt.Errorf("%v (inside MULTI/EXEC): %v", a, err)
+		}
+		got = v
+	}
+	s.logf("actor MULTI %v EXEC -> %s", argv, got)
+	served := got.K == kit.KArr && len(got.A) == 1 && !got.A[0].IsErr() && got.A[0].K != kit.KNil && !(got.A[0].K == kit.KInt && got.A[0].I == 0)
+	pk, pn := pushesOf(argv, served)
+	if !served {
+		pk, pn = nil, nil
+	}
+	return s.drainWakes(fmt.Sprintf("MULTI %v EXEC", argv), pk, pn)
 }
 
 // willLookAgain: the client is about to run its operation again without needing a further wake-up.
